@@ -103,6 +103,15 @@ def structure_obligations():
                             rows.append(dict(kind="batch_accessor_mode", cls=cname, accessor=bm, got=str(av._batch_mode)))
                         if av._name != nm_:
                             rows.append(dict(kind="batch_accessor_name", cls=cname, accessor=bm, got=repr(av._name)))
+                        # reads and writes through the handle address the prefab (and the name) as batch instructions
+                        for what in ("load", "store"):
+                            acc = ty._DeviceLogicType(av, ty.LogicType.Setting)
+                            ins = acc._load(ty.IC10Register("r0")) if what == "load" else acc._set(1.0)
+                            n += 1
+                            opw = {("load", None): "lb", ("load", "probe name"): "lbn", ("store", None): "sb", ("store", "probe name"): "sbn"}[(what, nm_)]
+                            vals = [getattr(i_, "value", i_) for i_ in ins.inputs]
+                            if ins.op != opw or not vals or vals[0] not in (cls._hash, f'HASH("{cls._prefab_name}")'):
+                                rows.append(dict(kind="batch_handle_access", cls=cname, accessor=bm, access=what, got=f"{ins.op} {vals}"))
             except Exception as e:
                 rows.append(dict(kind="batch_accessor_raises", cls=cname, detail=f"{type(e).__name__}: {e}"))
         # (3) named slots resolve to their numbered slot; logic properties carry their own name
